@@ -8,6 +8,7 @@ import (
 	"bufio"
 	"encoding/json"
 	"os"
+	"syscall"
 	"time"
 
 	"verif/harness/sym"
@@ -34,6 +35,7 @@ type out struct {
 }
 
 func main() {
+	syscall.Umask(0o022)
 	sc := bufio.NewScanner(os.Stdin)
 	sc.Buffer(make([]byte, 1<<20), 1<<26)
 	w := bufio.NewWriter(os.Stdout)
